@@ -523,3 +523,260 @@ def gen_CacheGuards() -> None:
 
 
 GENERATORS = {"CacheGuards": gen_CacheGuards}
+
+
+# ================================================================================================ phase 2
+# Ordered, context-annotated LISTING of the cache actions of each function (Generated/CachePrograms.lean):
+# every item = (action, inside `with FileLock`?, enclosing branch conditions, handler class lists of the enclosing
+# `try` bodies innermost first), in source order.  Properties/C18.lean decides that the listing equals the
+# canonical program text of the model (`Spec` templates instantiated with the generated guards), so a reordered,
+# added or dropped action breaks a decided obligation even when no flag of `CacheGuards` changes.
+def _src(node) -> str:
+    try:
+        return ast.unparse(node)
+    except Exception:  # noqa: BLE001
+        return "?"
+
+
+def _is_isinstance_of(test, var_set):
+    for c in ast.walk(test):
+        if isinstance(c, ast.Call) and call_name(c) == "isinstance" and c.args and isinstance(c.args[0], ast.Name) and c.args[0].id in var_set:
+            return True
+    return False
+
+
+def _hash_attr_of(node, var_set):
+    return isinstance(node, ast.Attribute) and "hash" in node.attr and isinstance(node.value, ast.Name) and node.value.id in var_set
+
+
+def function_listing(fn):
+    """-> (items, cache_var) for one function"""
+    sites = walk_sites(fn)
+    # the cache file variable = first argument of the open() calls / os.remove
+    cache_var = None
+    for s in sites:
+        if s["op"] in ("open_r",) and s["call"].args:
+            cache_var = _src(s["call"].args[0])
+            break
+    if cache_var is None:
+        for s in sites:
+            if s["op"] in ("open_w", "remove") and s["call"].args:
+                cache_var = _src(s["call"].args[0])
+                break
+    loaded = set()
+    for s in sites:
+        if s["op"] == "load":
+            v = assigned_name(fn, s["call"])
+            if v:
+                loaded.add(v)
+    mkdir_vars = {_src(s["call"].args[0]) for s in sites if s["op"] == "makedirs" and s["call"].args}
+    items = []
+    after_try = set()   # loaded vars whose try statement is finished
+
+    class C:
+        def __init__(self, lock=False, path=(), caught=()):
+            self.lock, self.path, self.caught = lock, tuple(path), tuple(caught)
+
+        def w(self, **kw):
+            d = dict(lock=self.lock, path=self.path, caught=self.caught)
+            d.update(kw)
+            return C(**d)
+
+    def emit(act, c):
+        exc = []
+        if ":" in act:
+            act, e = act.split(":", 1)
+            exc = [e]
+        items.append({"act": act, "inLock": c.lock, "path": list(c.path), "caught": [list(x) for x in c.caught], "exc": exc})
+
+    def call_act(call):
+        op = classify_call(call)
+        if op is None:
+            return None
+        arg = _src(call.args[0]) if call.args else ""
+        if op == "exists":
+            if arg == cache_var:
+                return "exists"
+            # the cache directory (the variable handed to os.makedirs); any other path is not a cache action
+            return "exists_dir" if arg in mkdir_vars else None
+        if op == "open_w":
+            return "open_w" if arg == cache_var else "open_tmp"
+        if op == "open_r":
+            return "open_r" if arg == cache_var else "open_other"
+        if op == "remove":
+            return "remove" if arg == cache_var else "remove_other"
+        return op
+
+    def calls_in(node, c, skip=()):
+        """emit the action calls inside an expression / simple statement, in field order"""
+        class V(ast.NodeVisitor):
+            def visit_Call(self, n):
+                self.generic_visit(n)
+                if n in skip:
+                    return
+                a = call_act(n)
+                if a:
+                    emit(a, c)
+
+            def visit_FunctionDef(self, n):
+                return
+
+            visit_Lambda = visit_AsyncFunctionDef = visit_FunctionDef
+        V().visit(node)
+
+    def reads(node, var_set):
+        return any(isinstance(n, ast.Name) and n.id in var_set and isinstance(n.ctx, ast.Load) for n in ast.walk(node))
+
+    def block(stmts, c):
+        for s in stmts:
+            stmt(s, c)
+
+    def stmt(s, c):
+        if isinstance(s, (ast.FunctionDef, ast.AsyncFunctionDef, ast.ClassDef)):
+            return
+        if isinstance(s, ast.If):
+            t = s.test
+            neg = isinstance(t, ast.UnaryOp) and isinstance(t.op, ast.Not)
+            core = t.operand if neg else t
+            if isinstance(core, ast.Call) and classify_call(core) == "exists" and call_act(core) is not None:
+                a = call_act(core)
+                emit(a, c)
+                pos, ng = a, "!" + a
+                block(s.body, c.w(path=c.path + ((ng if neg else pos),)))
+                block(s.orelse, c.w(path=c.path + ((pos if neg else ng),)))
+                return
+            if neg and _is_isinstance_of(t, loaded) and any(isinstance(r, ast.Raise) for r in s.body):
+                r = next(r for r in s.body if isinstance(r, ast.Raise))
+                e = r.exc.func if isinstance(r.exc, ast.Call) else r.exc
+                emit("typecheck:" + (exc_names(e)[0] if e is not None else "?"), c)
+                return
+            if isinstance(core, ast.Compare) and len(core.ops) == 1 and isinstance(core.ops[0], (ast.Eq, ast.NotEq)):
+                sides = [core.left] + core.comparators
+                if any(_hash_attr_of(x, loaded) for x in sides):
+                    selfside = any(isinstance(x, ast.Attribute) and isinstance(x.value, ast.Name) and x.value.id == "self" and "hash" in x.attr for x in sides)
+                    ne = isinstance(core.ops[0], ast.NotEq) != neg
+                    if selfside:
+                        emit("merge_compare", c)
+                        block(s.body, c.w(path=c.path + (("differs" if ne else "same"),)))
+                        block(s.orelse, c.w(path=c.path + (("same" if ne else "differs"),)))
+                    else:
+                        emit("fpcompare", c)
+                        block(s.body, c.w(path=c.path + (("mismatch" if ne else "match"),)))
+                        block(s.orelse, c.w(path=c.path + (("match" if ne else "mismatch"),)))
+                    return
+            calls_in(t, c)
+            block(s.body, c.w(path=c.path + ("if",)))
+            block(s.orelse, c.w(path=c.path + ("else",)))
+            return
+        if isinstance(s, ast.Try):
+            classes = handler_classes(s)
+            block(s.body, c.w(caught=(tuple(classes),) + c.caught))
+            for i, h in enumerate(s.handlers):
+                block(h.body, c.w(path=c.path + ("handler" if len(s.handlers) == 1 else f"handler{i}",)))
+            block(s.orelse, c.w(path=c.path + ("try-else",)))
+            block(s.finalbody, c.w(path=c.path + ("finally",)))
+            for v in loaded:
+                if any(isinstance(n, ast.Call) and classify_call(n) == "load" and assigned_name(fn, n) == v for n in ast.walk(s)):
+                    after_try.add(v)
+            return
+        if isinstance(s, (ast.With, ast.AsyncWith)):
+            if is_filelock_with(s):
+                emit("acquire", c)
+                block(s.body, c.w(lock=True))
+                emit("release", c.w(lock=True))
+                return
+            sc = suppress_classes(s)
+            if sc is not None:
+                block(s.body, c.w(caught=(tuple(sc),) + c.caught))
+                return
+            for it in s.items:
+                calls_in(it.context_expr, c)
+            block(s.body, c)
+            return
+        if isinstance(s, ast.Assert):
+            if _is_isinstance_of(s.test, loaded):
+                emit("typecheck:AssertionError", c)
+            return
+        if isinstance(s, ast.For):
+            if any(isinstance(n, ast.Subscript) and isinstance(n.ctx, ast.Store) for n in ast.walk(s)) and reads(s, loaded):
+                emit("merge", c)
+                return
+            calls_in(s.iter, c)
+            block(s.body, c.w(path=c.path + ("for",)))
+            return
+        if isinstance(s, ast.While):
+            block(s.body, c.w(path=c.path + ("while",)))
+            return
+        if isinstance(s, ast.Return):
+            if s.value is not None:
+                calls_in(s.value, c)
+            emit("return_loaded" if isinstance(s.value, ast.Name) and s.value.id in loaded else "return", c)
+            return
+        if isinstance(s, ast.Raise):
+            e = s.exc.func if isinstance(s.exc, ast.Call) else s.exc
+            emit("raise:" + (exc_names(e)[0] if e is not None else "reraise"), c)
+            return
+        if isinstance(s, (ast.Assign, ast.AnnAssign)):
+            val = s.value
+            targets = s.targets if isinstance(s, ast.Assign) else [s.target]
+            if val is not None:
+                calls_in(val, c)
+            for t in targets:
+                if isinstance(t, ast.Name) and t.id in loaded and isinstance(val, ast.Constant) and val.value is None:
+                    emit("clear_loaded", c)
+                if isinstance(t, ast.Attribute) and "hash" in t.attr and isinstance(t.value, ast.Name) and t.value.id not in loaded:
+                    emit("clear_fp" if isinstance(val, ast.Constant) and val.value in (b"", None) else "set_fp", c)
+            if val is not None and after_try and reads(val, after_try) and not (isinstance(val, ast.Call) and classify_call(val) == "load"):
+                emit("use_loaded", c)
+            return
+        if isinstance(s, ast.Expr):
+            calls_in(s.value, c)
+            return
+        # anything else: just the calls
+        calls_in(s, c)
+
+    block(fn.body, C())
+    return items, cache_var
+
+
+def item_lean(it) -> str:
+    path = "[" + ", ".join(f'"{p}"' for p in it["path"]) + "]"
+    caught = "[" + ", ".join(lst(x) for x in it["caught"]) + "]"
+    exc = f', exc := {lst(it["exc"])}' if it.get("exc") else ""
+    return f'{{ act := "{it["act"]}", inLock := {b(it["inLock"])}, path := {path}, caught := {caught}{exc} }}'
+
+
+def gen_CachePrograms() -> None:
+    meta = {"source": SRC}
+    progs = {"quickProgram": [], "configLoaderProgram": [], "configWriterProgram": []}
+    try:
+        tree = parse(SRC)
+    except (OSError, SyntaxError) as exc:
+        tree = None
+        meta["error"] = str(exc)
+    names = {}
+    if tree is not None:
+        for qn, fn in functions(tree):
+            sites = walk_sites(fn)
+            loads = [s for s in sites if s["op"] == "load"]
+            dumps = [s for s in sites if s["op"] == "dump"]
+            if not loads and not dumps:
+                continue
+            merges = any(lock_with(l["chain"]) is not None and any(lock_with(d["chain"]) is lock_with(l["chain"]) for d in dumps) for l in loads)
+            kind = "configWriterProgram" if merges or (dumps and not loads) else ("quickProgram" if dumps else "configLoaderProgram")
+            items, _ = function_listing(fn)
+            if progs[kind]:
+                # a second function of the same kind: append (the obligation then fails, as it should)
+                meta.setdefault("extra", []).append(qn)
+            progs[kind] = progs[kind] + items
+            names.setdefault(kind, []).append(qn)
+    out = ["import SpsdkVerif.Base.CacheGuardTypes", "", "namespace SpsdkVerif.Generated.CachePrograms", "open SpsdkVerif", ""]
+    for k in ("quickProgram", "configLoaderProgram", "configWriterProgram"):
+        out.append(f"/-- cache actions of `{', '.join(names.get(k, ['<not found>']))}` in source order -/")
+        out.append(f"def {k} : List ProgItem :=\n  [" + ",\n   ".join(item_lean(i) for i in progs[k]) + "]\n")
+    out.append("end SpsdkVerif.Generated.CachePrograms")
+    meta.update({k: v for k, v in progs.items()}, functions=names)
+    emit("CachePrograms", "\n".join(out) + "\n", meta)
+
+
+GENERATORS["CachePrograms"] = gen_CachePrograms
